@@ -110,6 +110,11 @@ def check(rep, tier, seed):
         if esetup is not None and dsetup is not None and esetup != dsetup:
             bad_prop.append({"kind": "set-up header conveys other table sizes than the encoder's set-up", "decoder_sees": dsetup, "encoder_has": esetup,
                              "case": k, "meta": m, "cases_file": cf_})
+        rp = [l for l in res["model"].get(k, []) if l.startswith("repack ")]
+        dist["headers_repacked_identically"] = dist.get("headers_repacked_identically", 0) + sum(1 for l in rp if l == "repack same")
+        if rp != ["repack same"]:
+            bad_prop.append({"kind": "the set-up header is not what the packer model writes for the set-up the strict parser reads from it (%s): packers and "
+                                     "unpackers are no longer inverse on this header" % (rp or "no repack line"), "case": k, "meta": m, "cases_file": cf_})
         if "init 0" not in li:
             bad_prop.append({"kind": "vorbis_synthesis_init failed on the encoder's headers", "case": k, "meta": m, "cases_file": cf_})
         pk = [l.split() for l in li if l.startswith("pkt ")]
